@@ -69,9 +69,9 @@ CHECKS = {
             "Simulation (sampled) rather than exhaustive; infinite sequences compared on a prefix; operations left open by the documentation are not generated; representation invariants of the variant tree are not yet checked.",
             "DESIGN.md 6 C15"),
     "C16": ("model_checking",
-            "TLA+ stream semantics of Generator (XrGen pool machine) walked by TLC -simulate; behaviours replayed, each generator consumed twice",
-            "TLC random-walks the XrGen machine over generator operations on finite and infinite sources and records every stream; every generator is consumed twice (re-iterability) and finite consumptions of infinite pipelines must terminate (laziness).",
-            "Evaluated-prefix bounds are observed as termination, not as exact pull counts; simulation is sampled.",
+            "TLA+ stream semantics of Generator (XrGen pool machine) walked by TLC -simulate; behaviours replayed, each generator consumed twice; needed-prefix (provenance) model in XrBound replayed against observed source evaluations",
+            "TLC random-walks the XrGen machine over generator operations on finite and infinite sources and records every stream; every generator is consumed twice (re-iterability) and finite consumptions of infinite pipelines must terminate. Laziness: for every pipeline (source . adaptor* . sink, exhaustive to 1 / 2 adaptors) over an infinite source whose successor function prints, XrBound computes the number of source elements the demanded elements need; the number actually evaluated must lie between that and that plus 1 per adaptor (k + 1 for windows/chunks of k).",
+            "Simulation is sampled; the look-ahead allowance is a chosen constant (the property says 'a constant per adaptor'); zip/flatten/product/with_count/enumerate are covered by the stream semantics but not by the provenance model.",
             "DESIGN.md 6 C16"),
     "C17": ("model_checking",
             "TLA+ finite-map semantics over equivalence classes (XrMap pool machine, -simulate) + TLA+ acceptor of bucket tables (XrMapRepr)",
